@@ -93,3 +93,91 @@ def analyze_tu(tables):
         parts.append('  std::printf( "%d\\t%%zu\\n", tao::pegtl::analyze< g%d::n0 >( -1 ) );' % (k, k))
     parts.append('  return 0; }')
     return '\n'.join(parts)
+
+
+# ---------------------------------------------------------------- parse observation TUs (T <-> static conformance, C12 leaf optimisation)
+
+PARSE_HEADER = HEADER + '''#include <string>
+#include <vector>
+#include <cstring>
+static std::string g_trace;
+static const char* g_b = nullptr;
+template< typename Rule > struct act : tao::pegtl::nothing< Rule > {};
+template< int I > struct log_act { template< typename AI > static void apply( const AI& in ) { g_trace += "n" + std::to_string( I ) + "[" + std::to_string( in.begin() - g_b ) + "," + std::to_string( in.end() - g_b ) + ")"; } };
+static std::string unhex( const char* s ) { std::string o; auto v = []( char c ) { return c <= '9' ? c - '0' : c - 'a' + 10; }; for( ; s[ 0 ] && s[ 1 ]; s += 2 ) o += char( v( s[ 0 ] ) * 16 + v( s[ 1 ] ) ); return o; }
+template< typename G > void run( long k, const char* hex, const char* ns ) {
+   const std::string s = unhex( hex );
+   char* buf = static_cast< char* >( malloc( s.size() + 1 ) );  // exact size, no terminator is read
+   memcpy( buf, s.data(), s.size() );
+   g_b = buf; g_trace.clear();
+   tao::pegtl::memory_input<> in( buf, buf + s.size(), "src" );
+   std::string res; long consumed = -1;
+   try { const bool ok = tao::pegtl::parse< G, act >( in ); res = ok ? "ok" : "fail"; consumed = long( in.current() - buf ); }
+   catch( const tao::pegtl::parse_error& e ) { res = "error:" + std::string( e.message() ) + "@" + std::to_string( e.position_object().byte ); }
+   catch( ... ) { res = "other"; }
+   // rule names: g<k>::n<I> -> n<I>
+   for( size_t q; ( q = res.find( ns ) ) != std::string::npos; ) res.erase( q, strlen( ns ) );
+   std::printf( "O\\t%ld\\t%s\\t%s\\t%ld\\t%s\\n", k, hex, res.c_str(), consumed, g_trace.c_str() );
+   free( buf );
+}
+'''
+
+
+def inline_plan(rules):
+    """rules that can be written anonymously inside their single user: referenced exactly once, not rule 0, not on a cycle"""
+    n = len(rules)
+    ar = lambda op: OPEXPR[op].count('{')
+    kids = [[(a, b, c)[i] for i in range(ar(op))] for (op, a, b, c) in rules]
+    ref = [0] * n
+    for ks in kids:
+        for k in ks:
+            ref[k] += 1
+
+    def reach(src):
+        seen, todo = set(), list(kids[src])
+        while todo:
+            x = todo.pop()
+            if x not in seen:
+                seen.add(x)
+                todo.extend(kids[x])
+        return seen
+    return {j for j in range(1, n) if ref[j] == 1 and j not in reach(j)}
+
+
+def grammar_source_nested(ser, ns):
+    rules = parse_table(ser)
+    inl = inline_plan(rules)
+
+    def expr(i):
+        op, a, b, c = rules[i]
+        name = lambda j: expr(j) if j in inl else 'n%d' % j
+        return OPEXPR[op].format(a=name(a), b=name(b), c=name(c))
+    out = ['namespace %s {' % ns, 'using namespace tao::pegtl;']
+    named = [i for i in range(len(rules)) if i not in inl]
+    for i in named:
+        out.append('struct n%d;' % i)
+    for i in named:
+        out.append('struct n%d : %s {};' % (i, expr(i)))
+    out.append('}')
+    return '\n'.join(out), named
+
+
+def parse_tu(tables, inputs_hex, nested=False):
+    """tables: list of (index, ser).  Prints one O line per (table, input) like checks/tconf.cpp."""
+    parts = [PARSE_HEADER]
+    named_of = {}
+    for k, ser in tables:
+        if nested:
+            src, named = grammar_source_nested(ser, 'g%d' % k)
+        else:
+            src, named = grammar_source(ser, 'g%d' % k), list(range(len(parse_table(ser))))
+        named_of[k] = named
+        parts.append(src)
+        for i in named:
+            parts.append('template<> struct act< g%d::n%d > : log_act< %d > {};' % (k, i, i))
+    parts.append('static const char* inputs[] = { %s };' % ', '.join('"%s"' % h for h in inputs_hex))
+    parts.append('int main() {')
+    for k, ser in tables:
+        parts.append('  for( const char* h : inputs ) run< g%d::n0 >( %d, h, "g%d::" );' % (k, k, k))
+    parts.append('  return 0; }')
+    return '\n'.join(parts), named_of
